@@ -1,6 +1,10 @@
 package main
 
 import (
+	"bytes"
+
+	"github.com/multiformats/go-multihash"
+
 	"verif/harness/vlib"
 )
 
@@ -138,6 +142,56 @@ func gen(c *vlib.Ctx) {
 			for _, fs := range [][]Fault{nil, {{Kind: "append", Arg: 1}}, {{Kind: "append", Arg: 4096}}, {{Kind: "trunc", Arg: size - 1}}} {
 				sc := base
 				sc.Syncs = []SyncJ{{T: "one", Head: rank, Faults: fs}, {T: "one", Head: rank}}
+				runScn(c, sc, false)
+			}
+		}
+	}
+	// the lie patterns again with TrustedStorage = true on the destination link system (the
+	// library's own tests configure it so): the fetch path must verify all the same
+	for _, h := range []string{"sha2-256", "sha2-256/16", "identity"} {
+		n := 3
+		bw := getWorld(Scn{Hash: h, Ads: n, Raw: 1})
+		for pos := 0; pos < n; pos++ {
+			self := n - pos
+			for i, f := range faultsFor(c, r, len(bw.w.Blocks[self-1].Raw), n, self, false) {
+				f.Pos = pos
+				runScn(c, Scn{Hash: h, Ads: n, Raw: 1, Trusted: true, Syncs: []SyncJ{{T: "ad", Head: n, Seg: int64(i % 3), Faults: []Fault{f}}, {T: "ad", Head: n}}}, false)
+			}
+		}
+		for _, f := range []Fault{{Kind: "flip", Arg: 5}, {Kind: "append", Arg: 1}, {Kind: "other", Arg: 1}, {Kind: "trunc", Arg: 10}} {
+			runScn(c, Scn{Hash: h, Ads: n, Raw: 1, Trusted: true, Syncs: []SyncJ{{T: "one", Head: n + 1, Faults: []Fault{f}}, {T: "one", Head: n + 1}}}, false)
+		}
+	}
+	// hash functions mixed within one walk and across syncs of one subscriber: a forged CID
+	// names another function but carries SHA2-256(body) as its digest
+	{
+		var names []string
+		for _, nm := range []string{"sha2-512/32", "sha2-512-256", "sha3-256", "blake2b-256", "blake3", "dbl-sha2-256", "identity"} {
+			if _, err := multihash.Sum(bytes.Repeat([]byte{'x'}, 32), forgeCodes[nm], 32); err != nil {
+				c.Count("forge:function-not-available:" + nm)
+				continue
+			}
+			names = append(names, nm)
+		}
+		const ads = 2
+		base := Scn{Hash: "sha2-256", Ads: ads, Forge: names}
+		for i := range names {
+			forged, link := ads+1+i, ads+len(names)+1+i
+			for _, trusted := range []bool{false, true} {
+				for _, seg := range []int64{0, 1} {
+					sc := base
+					sc.Trusted = trusted
+					// one walk: sha2-256 head -> forged -> genuine chain; then the genuine chain alone
+					sc.Syncs = []SyncJ{{T: "ad", Head: link, Seg: seg}, {T: "ad", Head: ads, Seg: seg}}
+					runScn(c, sc, false)
+				}
+				// across syncs of one subscriber: a sha2-256 block first, then the forged one
+				sc := base
+				sc.Trusted = trusted
+				sc.Syncs = []SyncJ{{T: "one", Head: ads}, {T: "one", Head: forged}, {T: "ad", Head: link}}
+				runScn(c, sc, false)
+				// control: the forged CID is the first block this subscriber ever fetches
+				sc.Syncs = []SyncJ{{T: "one", Head: forged}, {T: "one", Head: ads}, {T: "ad", Head: link}, {T: "ad", Head: ads}}
 				runScn(c, sc, false)
 			}
 		}
